@@ -170,6 +170,167 @@ pub fn child_concurrent(seed: u64, nthreads: usize) {
     println!("{}", json!({"threads": all, "instances": insts}));
 }
 
+// ---- structured consecutive pairs of PUBLIC calls ----
+// A hidden memo keyed by only some of the fields of its argument answers call B with call A's value when A and B agree
+// on those fields.  So: pairs (A, B) of cells agreeing on a SUBSET of (resolution, face, segment, curve position,
+// leading six bits, complemented position), each public function on A then on B in one thread, B compared with a cold B.
+#[derive(Clone, Copy)]
+struct D { res: i32, face: u8, seg: usize, s: u64 }
+fn id_of(d: D) -> Option<u64> {
+    use a5::core::utils::A5Cell;
+    if d.res < 0 || d.res > 29 { return None; }
+    let h = if d.res >= 2 { d.res - 1 } else { 0 };
+    if h < 32 && d.s >= (1u64 << (2 * h)).max(1) && h > 0 { return None; }
+    if h == 0 && d.s != 0 { return None; }
+    a5::core::serialization::serialize(&A5Cell { origin_id: d.face, segment: if d.res == 0 { 0 } else { d.seg }, s: d.s, resolution: d.res }).ok()
+}
+fn partners(d: D) -> Vec<D> {
+    let mut v = vec![];
+    // same face / segment / numeric position, other resolution
+    for dr in [-3, -1, 1, 2, 5] { v.push(D { res: d.res + dr, ..d }); }
+    v.push(D { res: 29, ..d });
+    // same position, other face or segment
+    v.push(D { face: (d.face + 1) % 12, ..d });
+    v.push(D { face: (d.face + 7) % 12, ..d });
+    v.push(D { seg: (d.seg + 1) % 5, ..d });
+    v.push(D { seg: (d.seg + 3) % 5, ..d });
+    // same complemented ("reversed") position at another resolution: 4^h - 1 - s
+    if d.res >= 2 { let h = d.res - 1; let comp = ((1u64 << (2 * h)) - 1) - d.s;
+        for dr in [-1, 1] { let r2 = d.res + dr; if r2 >= 2 && r2 <= 29 { let h2 = r2 - 1; let m2 = (1u64 << (2 * h2)) - 1; if comp <= m2 { v.push(D { res: r2, s: m2 - comp, ..d }); } } } }
+    // same position shifted by one digit (parent / first child / last child)
+    if d.res >= 3 { v.push(D { res: d.res - 1, s: d.s >> 2, ..d }); }
+    if d.res >= 2 && d.res < 29 { v.push(D { res: d.res + 1, s: d.s << 2, ..d }); v.push(D { res: d.res + 1, s: (d.s << 2) | 3, ..d }); }
+    v
+}
+/// IDs sharing their leading six bits with a base cell / quintant cell (the bits mean "face" at res 0, "5*face+q" above)
+fn same_top6(id: u64) -> Vec<u64> {
+    let top = id >> 58;
+    let mut v = vec![];
+    if top < 12 { v.push((top << 58) | (1u64 << 57)); }
+    if top < 60 { v.push((top << 58) | (1u64 << 56)); v.push((top << 58) | (1u64 << 55)); v.push((top << 58) | (2u64 << 54) | (1u64 << 53)); }
+    v.retain(|&x| x != id && a5::core::serialization::deserialize(x).is_ok());
+    v
+}
+const NFN: usize = 7;
+fn cell_fn(k: usize, id: u64) -> (String, String) {
+    let render = |v: Result<String, String>| match v { Ok(s) => s, Err(e) => format!("err:{}", e) };
+    let ring = |b: Vec<LonLat>| b.into_iter().map(ll_bits).collect::<Vec<_>>().join(",");
+    match k {
+        0 => (format!("cell_to_lonlat({:x})", id), render(a5::cell_to_lonlat(id).map(ll_bits))),
+        1 => (format!("cell_to_boundary({:x})", id), render(a5::cell_to_boundary(id, None).map(ring))),
+        2 => (format!("cell_to_boundary({:x},3,open)", id), render(a5::cell_to_boundary(id, Some(a5::core::cell::CellToBoundaryOptions { closed_ring: false, segments: Some(3) })).map(ring))),
+        3 => (format!("cell_to_parent({:x})", id), render(a5::cell_to_parent(id, None).map(|x| format!("{:x}", x)))),
+        4 => (format!("cell_to_children({:x})", id), render(a5::cell_to_children(id, None).map(|x| format!("{:x?}", x)))),
+        5 => (format!("lonlat_to_cell(centre({:x}))", id), render(a5::cell_to_lonlat(id).and_then(|c| a5::lonlat_to_cell(c, a5::get_resolution(id))).map(|x| format!("{:x}", x)))),
+        _ => (format!("uncompact([{:x}],+1)", id), render(a5::uncompact(&[id], (a5::get_resolution(id) + 1).min(29)).map(|x| format!("{:x?}", x)))),
+    }
+}
+
+fn structured_pairs(t: &mut Trace, tier: &str, rng: &mut Rng) -> (u64, u64) {
+    let nbase = if tier == "thorough" { 600 } else { 90 };
+    let mut pairs: Vec<(u64, u64)> = vec![];
+    for i in 0..nbase {
+        let res = [0, 1, 2, 3, 5, 8, 9, 10, 11, 14, 20, 27, 28, 29][i % 14];
+        let h = if res >= 2 { res - 1 } else { 0 };
+        let s = if h == 0 { 0 } else { match i % 3 { 0 => rng.next() & ((1u64 << (2 * h)) - 1), 1 => rng.below(4u64.pow((h as u32).min(5))), _ => ((1u64 << (2 * h)) - 1) - rng.below(16).min((1u64 << (2 * h)) - 1) } };
+        let d = D { res, face: rng.below(12) as u8, seg: rng.below(5) as usize, s };
+        let a = match id_of(d) { Some(x) => x, None => continue };
+        for q in partners(d) { if let Some(b) = id_of(q) { if b != a { pairs.push((a, b)); pairs.push((b, a)); } } }
+        for b in same_top6(a) { pairs.push((a, b)); pairs.push((b, a)); }
+    }
+    let mut n_pairs = 0u64;
+    let mut n_calls = 0u64;
+    // one long-lived thread runs  f(A); f(B)  for every pair and every function; every f(B) is also computed cold
+    let plist = pairs.clone();
+    let warm: Vec<(usize, usize, String, String)> = in_fresh_thread(move || {
+        let mut out = vec![];
+        for (pi, (a, b)) in plist.iter().enumerate() { for k in 0..NFN { let _ = cell_fn(k, *a); let (name, r) = cell_fn(k, *b); out.push((pi, k, name, r)); } }
+        out
+    });
+    // cross-function order as well: g(A) for all g, then f(B)
+    let plist2 = pairs.clone();
+    let warm2: Vec<(usize, usize, String)> = in_fresh_thread(move || {
+        let mut out = vec![];
+        for (pi, (a, b)) in plist2.iter().enumerate() { for k in 0..NFN { let _ = cell_fn((k + 1) % NFN, *a); let _ = cell_fn((k + 3) % NFN, *a); let (_, r) = cell_fn(k, *b); out.push((pi, k, r)); } }
+        out
+    });
+    let mut cold_cache: std::collections::HashMap<(u64, usize), String> = std::collections::HashMap::new();
+    for (idx, (pi, k, name, r)) in warm.iter().enumerate() {
+        let b = pairs[*pi].1;
+        let cold = cold_cache.entry((b, *k)).or_insert_with(|| { let kk = *k; in_fresh_thread(move || cell_fn(kk, b).1) }).clone();
+        let r2 = &warm2[idx].2;
+        t.emit(json!({"op": "purity", "call": format!("{} after the same call on {:x}", name, pairs[*pi].0),
+                      "results": [fnv(&cold), fnv(r), fnv(r2)], "contexts": ["cold thread", "directly after f(A)", "after g(A), g'(A)"],
+                      "cold_value": cold.chars().take(80).collect::<String>()}));
+        n_calls += 1;
+        if idx % 200 == 0 { t.cut(); }
+    }
+    n_pairs += pairs.len() as u64;
+    // same POINT at two resolutions (fine first, then coarse; and the reverse), on edge/seam-hugging and uniform points
+    let npts = if tier == "thorough" { 4000 } else { 500 };
+    let mut cold_lk: Vec<(f64, f64, i32, i32)> = vec![];
+    for i in 0..npts {
+        let z = 2.0 * rng.f64() - 1.0;
+        let mut p = (360.0 * rng.f64() - 180.0, z.asin().to_degrees());
+        let f = [2, 3, 5, 8, 12, 16, 24, 29][i % 8];
+        if i % 2 == 0 {
+            // a point just across an edge of a res-f cell from its centre: in the overhang of its neighbours
+            if let Ok(c) = a5::lonlat_to_cell(LonLat::new(p.0, p.1), f) { if let (Ok(cc), Ok(ring)) = (a5::cell_to_lonlat(c), a5::cell_to_boundary(c, None)) {
+                let v = ring[rng.below(ring.len() as u64) as usize]; let tt = 0.9 + 0.2 * rng.f64();
+                p = (cc.longitude() + tt * (v.longitude() - cc.longitude()), (cc.latitude() + tt * (v.latitude() - cc.latitude())).clamp(-90.0, 90.0));
+            } }
+        }
+        let c = [0, 1, 0, 1, 2, 4][i % 6].min(f);
+        cold_lk.push((p.0, p.1, f, c));
+    }
+    let lk = cold_lk.clone();
+    let warm_lk: Vec<(String, String)> = in_fresh_thread(move || lk.iter().map(|&(lo, la, f, c)| {
+        let _ = a5::lonlat_to_cell(LonLat::new(lo, la), f);
+        let r = a5::lonlat_to_cell(LonLat::new(lo, la), c);
+        let _ = a5::lonlat_to_cell(LonLat::new(lo, la), c);
+        let r_up = a5::lonlat_to_cell(LonLat::new(lo, la), f);
+        (format!("{:x?}", r), format!("{:x?}", r_up))
+    }).collect());
+    for (i, &(lo, la, f, c)) in cold_lk.iter().enumerate() {
+        let cold_c = in_fresh_thread(move || format!("{:x?}", a5::lonlat_to_cell(LonLat::new(lo, la), c)));
+        let cold_f = in_fresh_thread(move || format!("{:x?}", a5::lonlat_to_cell(LonLat::new(lo, la), f)));
+        t.emit(json!({"op": "purity", "call": format!("lonlat_to_cell(({:?},{:?}),{}) after the same point at res {}", lo, la, c, f),
+                      "results": [fnv(&cold_c), fnv(&warm_lk[i].0)], "contexts": ["cold thread", "after the finer lookup of the same point"], "cold_value": cold_c}));
+        t.emit(json!({"op": "purity", "call": format!("lonlat_to_cell(({:?},{:?}),{}) after the same point at res {}", lo, la, f, c),
+                      "results": [fnv(&cold_f), fnv(&warm_lk[i].1)], "contexts": ["cold thread", "after the coarser lookup of the same point"], "cold_value": cold_f}));
+        n_calls += 2;
+        if i % 100 == 0 { t.cut(); }
+    }
+    t.cut();
+    (n_pairs, n_calls)
+}
+
+/// generation counters wrap: P, then the same other call 2^k - 1 (resp. 2^k, 2^k + 1) times, then P again
+fn wraparound(t: &mut Trace, rng: &mut Rng) -> u64 {
+    let mut n = 0;
+    for (k, reps) in [(8u32, 255usize), (8, 256), (16, 65535), (16, 65536), (16, 65537)] {
+        for trial in 0..2 {
+            let z = 2.0 * rng.f64() - 1.0;
+            let (p, q) = ((360.0 * rng.f64() - 180.0, z.asin().to_degrees()), (360.0 * rng.f64() - 180.0, (2.0 * rng.f64() - 1.0).asin().to_degrees()));
+            let r = [5, 12, 9, 17][(trial + k as usize) % 4];
+            let cold = in_fresh_thread(move || format!("{:x?}", a5::lonlat_to_cell(LonLat::new(p.0, p.1), r)));
+            let after = in_fresh_thread(move || {
+                let first = format!("{:x?}", a5::lonlat_to_cell(LonLat::new(p.0, p.1), r));
+                for _ in 0..reps { let _ = a5::lonlat_to_cell(LonLat::new(q.0, q.1), r); }
+                let again = format!("{:x?}", a5::lonlat_to_cell(LonLat::new(p.0, p.1), r));
+                let c1 = a5::lonlat_to_cell(LonLat::new(p.0, p.1), r).ok();
+                let geo = c1.map(|c| format!("{:?}", a5::cell_to_boundary(c, None).map(|b| b.len()))).unwrap_or_default();
+                (first, again, geo)
+            });
+            t.emit(json!({"op": "purity", "call": format!("lonlat_to_cell(P,{}) before / after {} other lookups", r, reps),
+                          "results": [fnv(&cold), fnv(&after.0), fnv(&after.1)], "contexts": ["cold thread", "first call", format!("after {} calls (2^{} boundary)", reps, k)], "cold_value": cold}));
+            n += 1;
+        }
+    }
+    t.cut();
+    n
+}
+
 pub fn gen_c13(tier: &str, seed: u64, out: &str, mc: Option<&str>) -> Value {
     let mut rng = Rng::new(seed ^ 0xC13);
     let mut t = Trace::new(out, "c13", 300);
@@ -303,8 +464,12 @@ pub fn gen_c13(tier: &str, seed: u64, out: &str, mc: Option<&str>) -> Value {
         n_pure += 1;
         t.cut();
     }
+    let (n_struct_pairs, n_struct_calls) = structured_pairs(&mut t, tier, &mut rng);
+    let n_wrap = wraparound(&mut t, &mut rng);
+    n_ctx += 3 * n_struct_calls;
     t.finish();
-    json!({"files": t.files, "events": t.events, "key_pairs": n_pairs, "histories": n_hist, "history_steps": n_steps, "public_calls": n_pure,
+    json!({"files": t.files, "events": t.events, "key_pairs": n_pairs, "histories": n_hist, "structured_cell_pairs": n_struct_pairs,
+           "structured_pair_calls": n_struct_calls, "wraparound_scenarios": n_wrap, "history_steps": n_steps, "public_calls": n_pure,
            "public_call_contexts": n_ctx, "cold_processes": n_proc,
            "samples": [pair_event(keys[3], keys[123], 0, 1, &cold), json!({"call": names[17], "contexts": per_call[17].len()})]})
 }
